@@ -962,7 +962,21 @@ func (ex *Exec) step(st *State, in ssa.Instruction) {
 		}
 		fr.env[in] = ex.w.box(in.X.Type(), xt, ex.d)
 	case *ssa.ChangeInterface:
-		fr.env[in] = ex.val(st, in.X)
+		x := ex.val(st, in.X)
+		if t, ok := x.(Term); ok {
+			from, to := t.Sort, ex.w.sortOf(in.Type(), ex.d)
+			if from != to {
+				// an interface modelled by its own sort (reflect.Type = type id) stored into a
+				// general interface: an opaque injection into Val
+				if from == SInt && to == SVal {
+					ex.d.declFun("iface2val$Int", []string{SInt}, SVal)
+					x = ite(eq(t, intLit(0)), nilVal, app(SVal, "iface2val$Int", t))
+				} else {
+					ex.unsupportedf("ChangeInterface between sorts %s and %s", from, to)
+				}
+			}
+		}
+		fr.env[in] = x
 	case *ssa.ChangeType:
 		x := ex.val(st, in.X)
 		if t, ok := x.(Term); ok {
